@@ -12,6 +12,7 @@ The theorems (Props/C03.lean) are about the same `Wt`/`Closed` definitions and t
 import os, re, subprocess
 import vlib
 from props import unify as unify_stream
+from props import infer as infer_stream
 
 STAGES = ["core", "mono", "lift", "anf"]
 
@@ -264,7 +265,7 @@ def arity_oracle(ctx, progs, res):
 def run(ctx):
     ctx.extract()
     ctx.build_lean([m for m in ("GomlVerif.Props.C03", "GomlVerif.Props.C03pres", "GomlVerif.Props.C03Arity",
-                                "GomlVerif.Props.Unify", "GomlVerif.Props.Solve")
+                                "GomlVerif.Props.Unify", "GomlVerif.Props.Solve", "GomlVerif.Props.Infer")
                     if os.path.exists(os.path.join(vlib.LEAN, m.replace(".", "/") + ".lean"))])
     if not ctx.build_harness():
         return ctx.finish("proof", {"evaluations": 0, "distinct_nontrivial": 0}, [], "lake build")
@@ -400,6 +401,7 @@ def run(ctx):
     # ------------------------------------------------------------------ the unifier: scripts on the real Typer vs the model
     uni = unify_stream.run(ctx)
     sol = unify_stream.run_solve(ctx)
+    inf = infer_stream.run(ctx)
     # programs whose rejection goes through each diagnostic class of `unify` (rows ILLU of the ill-typed stream)
     prog_classes, prog_miss = {}, []
     for k, d in progs.items():
@@ -414,8 +416,9 @@ def run(ctx):
         ctx.broken_ties.append(("illu programs", "no diagnostic of the aimed unify class: " + ", ".join(prog_miss[:6])))
     ctx.violations.sort(key=lambda v: len(v[2].get("src") or v[2].get("script") or "x" * 10**6))
     cov = {
-        "evaluations": n_dumps + n_ill + uni.get("unify_steps", 0) + sol.get("queues", 0),
-        "distinct_nontrivial": len(distinct) + len(ill_kinds) + uni.get("distinct_unify_steps", 0) + sol.get("distinct(diagnostics, kinds, left-over)", 0),
+        "evaluations": n_dumps + n_ill + uni.get("unify_steps", 0) + sol.get("queues", 0) + inf.get("functions_compared", 0),
+        "distinct_nontrivial": len(distinct) + len(ill_kinds) + uni.get("distinct_unify_steps", 0) + sol.get("distinct(diagnostics, kinds, left-over)", 0)
+                               + inf.get("distinct(generation diagnostics, solve diagnostics, constraint kinds, queue length, fresh keys)", 0),
         "rule": "one evaluation = one real stage dump of an accepted program checked by Wt.errs/Closed, or one ill-typed variant compiled by the "
                 "real compiler, or one `unify` step run on the real Typer and on the model; programs: 74 corpus programs, witnesses under corpus/C03 and C07, generated programs (C01's generator incl. the "
                 "rich-generics library); distinct by Core size / by kind of injected error / by (class, both argument types) of a unify step",
@@ -432,7 +435,8 @@ def run(ctx):
         "unifier(real Typer::unify/norm driven through the goml_verif hook, vs Model/Unify.lean)": uni,
         "unify_diagnostic_classes_reached_by_whole_programs(class: programs)": prog_classes,
         "solver(real Typer::solve on generated constraint queues, vs Model/Solve.lean)": sol,
-        "impl_oracle_failures": len(ctx.violations) + sum(h["count"] for h in ctx.known_hits), "model_diffs": uni.get("model_diffs", 0) + sol.get("model_diffs", 0),
+        "constraint_generation(real typecheck_fn observed through the goml_verif hook on generated function bodies, vs Model/Infer.lean)": inf,
+        "impl_oracle_failures": len(ctx.violations) + sum(h["count"] for h in ctx.known_hits), "model_diffs": uni.get("model_diffs", 0) + sol.get("model_diffs", 0) + inf.get("model_diffs", 0),
     }
     cov["argument_count(c03arity.rs)"] = arity_cov
     ctx.assumptions += [
@@ -443,10 +447,15 @@ def run(ctx):
         "ill-typed variants are ill-typed by construction: the wrong value is a bool/string literal at a position whose type is fixed by a "
         "declaration, an annotation, a sibling branch/element or an operator; the un-mutated program must be accepted",
         "of the typer's inference, the unifier (typer/unify.rs: occurs, norm, unify, the ena table) is modelled (Model/Unify.lean) and tied by "
-        "scripts run on the real Typer through the cfg(goml_verif) hook; constraint generation (check.rs) and the solve loop are not modelled: "
-        "their outputs are checked and their rejections sampled",
+        "scripts run on the real Typer through the cfg(goml_verif) hook; the solve loop likewise (Model/Solve.lean); constraint generation "
+        "(check.rs) is modelled for the fragment of Model/Infer.lean (literals, names, tuples, closures, let, blocks, if, while, match on "
+        "literal/variable/wildcard/tuple patterns, calls, operators, projections, field access) and tied on generated function bodies; "
+        "constructors, struct literals, arrays, method calls, dyn coercions, trait-bounded calls are outside it: their outputs are checked "
+        "and their rejections sampled",
+        "infer_sound_partial needs the decidable certificate `justB` (every obligation of the elaborated tree is an identity or a queued "
+        "constraint); it is evaluated on every function of the tie stream, not proved for all inputs",
         "the ena table is modelled by what the typer observes of it (find, probe_value, rank-directed choice of the root); path compression is not",
     ]
     tb = ["Lean 4 kernel", "axioms: " + ",".join(ctx.proof["axioms"] or ["none"]), "harness/src/c03.rs, c07.rs, dump.rs",
-          "Driver/C03.lean, Driver/Unify.lean, DecSyntax.lean", "tools/props/c03.py, unify.py", "harness/src/unify.rs + the verif-hook commit in goml", "the generator's own typing (harness/src/progen.rs)"]
+          "Driver/C03.lean, Driver/Unify.lean, DecSyntax.lean", "tools/props/c03.py, unify.py, infer.py", "harness/src/unify.rs, solve.rs, infer.rs + the verif-hook commits in goml", "the generator's own typing (harness/src/progen.rs)"]
     return ctx.finish("proof", cov, tb, "lake build GomlVerif.Props.C03 && lake env lean Axioms.lean (#print axioms); gomlmodel c03 on the real dumps")
